@@ -87,6 +87,7 @@ def run(chk):
                     '(edges to unregistered paths survive: later queries and sort() still see them)', FILE, rm[0]['line'])
     from sa.props.c20 import acyclic_rules
     acyclic_rules(chk, fx, 'C21-cycle')
+    query_rule(chk, fx)
     return ('Coupled-state rule over every method of module::graph::ModuleGraph (resolved receivers and field types from typed HIR); cycle refusal: single edge writer behind a '
             'transitive reachability test that is not weakened by a conjunct. '
             'Decides only the representation invariant index[path]==position; query answers, cycle refusal and topological order are not decided.'), {}
@@ -102,3 +103,48 @@ def is_prefix(a, b):
         if x[0] != y[0] or x[1] is not y[1] or (x[0] == 'if' and x[2] != y[2]) or (x[0] == 'arm' and x[2] is not y[2]):
             return False
     return True
+
+
+def query_rule(chk, fx):
+    """an edge may point at a path that is no node (yet): inc_ref registers the referrer only"""
+    chk.rule('C21-query', 'the transitive query answers from the edge sets alone: ModuleGraph::inc_ref registers only the referrer (add_node_if_none(referrer)) before it writes the edge, '
+                          'so the target of an edge can be an unregistered path — then no exit of deep_depends_on / deep_depends_on_ may depend on `target` being in the node index '
+                          '(depends_on, parents and ancestors answer true for such an edge; an early `return false` makes the transitive query disagree with them until the target is '
+                          'registered)')
+    inc = [f for f in fx.fns(FILE) if T.norm(f['path']) == 'ModuleGraph::inc_ref']
+    if not chk.need(len(inc) == 1, 'ModuleGraph::inc_ref not found'):
+        return
+    registered = set()
+    for c in T.calls(inc[0]['body']):
+        if c.get('k') == 'MCall' and c['n'] in ('add_node_if_none', 'add_node') and c['a']:
+            registered |= {x['n'] for x in T.walk(c['a'][0]) if x.get('k') == 'Local'}
+    if 'depends_on' in registered:
+        chk.ok('C21-query', 'targets-registered', sample='inc_ref registers the target of the edge as well')
+        return
+    n = 0
+    for f in fx.fns(FILE):
+        nm = T.norm(f['path'])
+        if nm not in ('ModuleGraph::deep_depends_on', 'ModuleGraph::deep_depends_on_'):
+            continue
+        n += 1
+        # names that stand for the target: the parameter and locals derived from it
+        tnames = {'target'}
+        for l in T.walk(f['body']):
+            if l.get('k') == 'Let' and l.get('init') is not None and any(x.get('k') == 'Local' and x['n'] in tnames for x in T.walk(l['init'])):
+                tnames |= set(T.pat_bindings(l['pat']))
+        bad = None
+        for i in T.walk(f['body']):
+            if i.get('k') != 'If':
+                continue
+            for c in T.calls(i['c']):
+                if c.get('k') == 'MCall' and c['n'] in ('contains_key', 'get', 'get_node', 'contains', 'get_mut_node', 'position', 'iter') and \
+                        any(x.get('k') == 'Local' and x['n'] in tnames for a in c['a'] for x in T.walk(a)) and \
+                        any(w in T.show(T.peel(c['r'])) for w in ('index', 'graph', 'self')) and 'depends_on' not in T.show(T.peel(c['r'])):
+                    exits = [r for r in T.walk(i['t']) if r.get('k') == 'Ret'] or [i['t']]
+                    bad = (c, i)
+        if bad:
+            chk.bad('C21-query', nm, 'target-must-be-node', '%s leaves early on `%s`: the answer depends on `target` being a registered node, but inc_ref writes edges to paths it does not '
+                    'register — deep_depends_on(a, b) is false while depends_on(a, b) is true until b is registered' % (nm, T.show(bad[0])[:50]), FILE, bad[1].get('l'))
+        else:
+            chk.ok('C21-query', nm)
+    chk.floor('transitive query functions', n, 2)
